@@ -582,6 +582,15 @@ def check_sweep(acc, pendulum, loc, start, ndays):
             ok = acceptable(d, comps, False, False, False)
             if r is not None and ok and r not in ok:
                 acc.mismatch("diff_for_humans", f"{loc}/day-sweep/date/phrase", case, r, sorted(ok))
+            # the same two dates as NATIVE values handed to Interval (it converts them itself)
+            import datetime as dt_
+            na_, nb_ = dt_.date(*start), dt_.date(b.year, b.month, b.day)
+            e = expected_words(d, list(zip(UNITS, comps)), 0)
+            for lbl, mk in (("native,native", lambda: pendulum.Interval(na_, nb_)), ("pendulum,native", lambda: pendulum.Interval(ad, nb_)),
+                            ("native,pendulum", lambda: pendulum.Interval(na_, bd))):
+                r = basic(acc, "Interval.in_words", f"{loc}/native-date-endpoints", dict(case, endpoints=lbl), lambda: mk().in_words(locale=loc))
+                if r is not None and e is not None and r != e:
+                    acc.mismatch("Interval.in_words", f"{loc}/native-date-endpoints", dict(case, endpoints=lbl), r, e)
 
 
 def check_fold_pair(acc, pendulum, loc):
